@@ -30,7 +30,33 @@ PRIMS = ("read_fmt", "write_fmt", "is_readable", "read_length_block", "write_len
 UNIT1 = [("psd_tools.psd.layer_and_mask", "LayerInfoBlock", ("read", "write")),
          ("psd_tools.psd.layer_and_mask", "LayerInfo", ("_read_body", "_write_body", "_update_channel_length")),
          ("psd_tools.psd.tagged_blocks", "TaggedBlock", ("read", "write", "_length_format"))]
-UNITS = {"unit1": UNIT1}
+UNIT2 = [("psd_tools.psd.base", "EmptyElement", ("read", "write")),
+         ("psd_tools.psd.base", "NumericElement", ("read", "write")),
+         ("psd_tools.psd.base", "IntegerElement", ("read", "write")),
+         ("psd_tools.psd.base", "ShortIntegerElement", ("read", "write")),
+         ("psd_tools.psd.base", "ByteElement", ("read", "write")),
+         ("psd_tools.psd.base", "BooleanElement", ("read", "write")),
+         ("psd_tools.psd.base", "StringElement", ("read", "write")),
+         ("psd_tools.psd.color", "Color", ("read", "write")),
+         ("psd_tools.psd.tagged_blocks", "Bytes", ("read", "write")),
+         ("psd_tools.psd.tagged_blocks", "ProtectedSetting", ("read", "write")),
+         ("psd_tools.psd.tagged_blocks", "SheetColorSetting", ("read", "write")),
+         ("psd_tools.psd.tagged_blocks", "ReferencePoint", ("read", "write")),
+         ("psd_tools.psd.tagged_blocks", "SectionDividerSetting", ("read", "write")),
+         ("psd_tools.psd.tagged_blocks", "UserMask", ("read", "write")),
+         ("psd_tools.psd.tagged_blocks", "FilterMask", ("read", "write")),
+         ("psd_tools.psd.tagged_blocks", "ChannelBlendingRestrictionsSetting", ("read", "write")),
+         ("psd_tools.psd.tagged_blocks", "MetadataSettings", ("read", "write")),
+         ("psd_tools.psd.tagged_blocks", "MetadataSetting", ("read", "write")),
+         ("psd_tools.psd.tagged_blocks", "PixelSourceData2", ("read", "write")),
+         ("psd_tools.psd.tagged_blocks", "Annotations", ("read", "write")),
+         ("psd_tools.psd.tagged_blocks", "Annotation", ("read", "write"))]
+UNITS = {"unit1": UNIT1, "unit2": UNIT2}
+# classes a registry row is emitted for (tagged_blocks.TYPES: key -> class name)
+REGISTRY_CLASSES = {"unit2": ["EmptyElement", "IntegerElement", "ShortIntegerElement", "ByteElement", "StringElement", "Bytes",
+                              "ProtectedSetting", "SheetColorSetting", "ReferencePoint", "SectionDividerSetting", "UserMask",
+                              "FilterMask", "ChannelBlendingRestrictionsSetting", "MetadataSettings", "PixelSourceData2",
+                              "Annotations"]}
 
 
 def _s(x: str) -> str:
@@ -104,7 +130,7 @@ def calls_table(spec, notes):
         for m in methods:
             fn = _method_node(cls, m)
             if fn is None:
-                rows.append((cname, m, "<missing>", ""))
+                rows.append((cname, m, "<missing>" if cls is None else "<inherited>", ""))
                 continue
             cs = _calls_in_order(fn)
             if not cs:
@@ -162,6 +188,67 @@ def unit1(notes):
     return t
 
 
+def _enum_ints(modname, name, notes):
+    try:
+        E = getattr(importlib.import_module(modname), name)
+        return sorted(int(m.value) for m in E)
+    except Exception as e:  # noqa
+        notes.append(f"{modname}.{name} not readable ({type(e).__name__}): generated as empty")
+        return []
+
+
+def _validator_options(K, field):
+    import attr
+    try:
+        v = {a.name: a for a in attr.fields(K)}[field].validator
+        return list(getattr(v, "options", None) or [])
+    except Exception:  # noqa
+        return []
+
+
+def unit2(notes):
+    t = {}
+    t["sectionDividerKinds"] = _enum_ints("psd_tools.constants", "SectionDivider", notes)
+    t["sheetColors"] = _enum_ints("psd_tools.constants", "SheetColorType", notes)
+    try:
+        C = importlib.import_module("psd_tools.constants")
+        t["colorSpaceLab"] = int(C.ColorSpaceID.LAB)
+    except Exception:  # noqa
+        notes.append("constants.ColorSpaceID.LAB not found: generated as the sentinel 4294967295")
+        t["colorSpaceLab"] = 4294967295
+    TB = importlib.import_module("psd_tools.psd.tagged_blocks")
+    MS = getattr(TB, "MetadataSetting", None)
+    t["metadataSignatures"] = [bytes(x) for x in (getattr(MS, "_KNOWN_SIGNATURES", ()) or ())]
+    t["metadataDescriptorKeys"] = sorted(bytes(x) for x in (getattr(MS, "_KNOWN_KEYS", ()) or ()))
+    # the tuple of `if key in (b"mdyn", b"sgrp")` in MetadataSetting.read (AST)
+    _, tree = _module_tree("psd_tools.psd.tagged_blocks", notes)
+    fn = _method_node(_class_node(tree, "MetadataSetting"), "read")
+    ints = None
+    if fn is not None:
+        for n in ast.walk(fn):
+            if (isinstance(n, ast.If) and isinstance(n.test, ast.Compare) and len(n.test.ops) == 1 and isinstance(n.test.ops[0], ast.In)
+                    and getattr(n.test.left, "id", None) == "key" and isinstance(n.test.comparators[0], ast.Tuple)):
+                ints = [bytes(e.value) for e in n.test.comparators[0].elts if isinstance(e, ast.Constant) and isinstance(e.value, bytes)]
+                break
+    if ints is None:
+        notes.append("MetadataSetting.read: `if key in (...)` not found: metadataIntKeys generated as empty")
+        ints = []
+    t["metadataIntKeys"] = ints
+    AN = getattr(TB, "Annotation", None)
+    t["annotationKinds"] = [bytes(x) for x in _validator_options(AN, "kind")] if AN else []
+    t["annotationMarkers"] = [bytes(x) for x in _validator_options(AN, "marker")] if AN else []
+    return t
+
+
+def registry_rows(names, notes):
+    TB = importlib.import_module("psd_tools.psd.tagged_blocks")
+    reg = getattr(TB, "TYPES", None)
+    if not isinstance(reg, dict):
+        notes.append("tagged_blocks.TYPES not found")
+        return []
+    return sorted((bytes(getattr(k, "value", k)), v.__name__) for k, v in reg.items() if getattr(v, "__name__", "") in names)
+
+
 def rows4(xs):
     return "[\n  " + ",\n  ".join("(" + ", ".join(_s(y) for y in x) + ")" for x in xs) + "\n]" if xs else "[]"
 
@@ -191,6 +278,33 @@ def gen_payload(ctx):
         "/-- the bodies `LayerInfoBlock` inherits: (class, method, statements; docstrings and logger calls dropped) -/\n"
         f"def layerInfoBodies : List (String × String × String) := {rows4(t1['layerInfoBodies'])}\n")
     summary["layerInfoBlockKeys"] = [k.decode("latin1") for k in t1["layerInfoBlockKeys"]]
+    # ---- unit 2
+    try:
+        t2 = unit2(notes)
+    except Exception as e:  # noqa
+        notes.append(f"unit2 extraction failed: {type(e).__name__}: {e}")
+        t2 = {"sectionDividerKinds": [], "sheetColors": [], "colorSpaceLab": 4294967295, "metadataSignatures": [],
+              "metadataDescriptorKeys": [], "metadataIntKeys": [], "annotationKinds": [], "annotationMarkers": []}
+    bl = lambda xs: "[" + ", ".join(_bytes(x) for x in xs) + "]"
+    parts.append(
+        f"/-- members of `constants.SectionDivider` -/\ndef sectionDividerKinds : List Nat := {t2['sectionDividerKinds']}\n"
+        f"/-- members of `constants.SheetColorType` -/\ndef sheetColors : List Nat := {t2['sheetColors']}\n"
+        f"/-- `ColorSpaceID.LAB` -/\ndef colorSpaceLab : Nat := {t2['colorSpaceLab']}\n"
+        f"/-- `MetadataSetting._KNOWN_SIGNATURES` -/\ndef metadataSignatures : List (List UInt8) := {bl(t2['metadataSignatures'])}\n"
+        f"/-- the keys whose data is one `I` (`if key in (...)` of `MetadataSetting.read`) -/\ndef metadataIntKeys : List (List UInt8) := {bl(t2['metadataIntKeys'])}\n"
+        f"/-- `MetadataSetting._KNOWN_KEYS`, sorted -/\ndef metadataDescriptorKeys : List (List UInt8) := {bl(t2['metadataDescriptorKeys'])}\n"
+        f"/-- options of the validator of `Annotation.kind` -/\ndef annotationKinds : List (List UInt8) := {bl(t2['annotationKinds'])}\n"
+        f"/-- options of the validator of `Annotation.marker` -/\ndef annotationMarkers : List (List UInt8) := {bl(t2['annotationMarkers'])}\n")
+    for unit, names in REGISTRY_CLASSES.items():
+        try:
+            rows = registry_rows(names, notes)
+        except Exception as e:  # noqa
+            notes.append(f"{unit} registry extraction failed: {type(e).__name__}")
+            rows = []
+        parts.append(f"/-- {unit}: `tagged_blocks.TYPES` restricted to the modelled classes: (key, class name), sorted -/\n"
+                     f"def {unit}Registry : List (List UInt8 × String) := [\n  "
+                     + ",\n  ".join(f"({_bytes(k)}, {_s(v)})" for k, v in rows) + "\n]\n")
+        summary[unit + "Registry"] = len(rows)
     # ---- calls of utils primitives, per unit
     for unit, spec in UNITS.items():
         try:
